@@ -29,7 +29,13 @@ RULE = ("configurations = endpoint (token, introspection, token_revocation, push
         "intervening requests, no jti, HS signed with another client's secret / with the public key bytes / with a "
         "second oct key, RS/ES signed by another client's or an unregistered key, iss != body client_id, alg none, "
         "not a JWT, malformed Basic, header and body naming different clients, request objects, bearer tokens of "
-        "another client, smuggled 'authenticated' parameter), then random pairs of faults; plus a deterministic block of "
+        "another client, smuggled 'authenticated' parameter), the identity matrix (a genuine Basic / client_secret_jwt / "
+        "private_key_jwt RS+ES / bearer header / bearer body / request object credential of client A x body client_id naming "
+        "another confidential client, the public client, an unregistered id, or A itself; two complete credentials of two "
+        "clients in one request: judged is the client_id the PARSED request carries), then random pairs of faults; plus "
+        "a deterministic processing block (revocation of a fresh token of either client and PAR: each credential kind x "
+        "body client_id, parse_request then process_request, judged: whose token was revoked / for whom a request was "
+        "stored) and client_credentials at an OAuth2 token endpoint (judged: owner of the issued token); plus a deterministic block of "
         "long-lived assertions (exp +1 h / +1 day) replayed after clock advances of 0/599/600/601/3599 s/12 h with 0 or 3 "
         "fresh assertions in between, at the same and at another endpoint; a case is non-trivial "
         "when at least one method is usable for the request")
@@ -132,6 +138,8 @@ class World:
         sm = c.session_manager
         self.tokens = {}      # alias -> real value
         self.token_owner = {}  # alias -> client the token was minted for (None: never minted)
+        self.sess = {}        # client -> (session id, code) for minting further access tokens
+        self.last_parsed = None
         for alias, cid in (("T1", "client_1"), ("T2", "client_2")):
             ar = AuthorizationRequest(client_id=cid, redirect_uri="https://%s.example.com/cb" % cid,
                                       scope=["openid"], state="s", response_type="code")
@@ -143,6 +151,7 @@ class World:
                               token_handler=sm.token_handler["access_token"], based_on=code)
             self.tokens[alias] = at.value
             self.token_owner[alias] = cid
+            self.sess[cid] = (sid, code)
             if alias == "T2":
                 self.tokens["TC"] = code.value
                 self.token_owner["TC"] = None      # a code, not an access token
@@ -169,17 +178,34 @@ class World:
             return r
 
         def verify_request(request, keyjar, client_id, verify_args, lap=0):
+            # client_id: what parse_request hands on; request.get("client_id"): the identity the parsed request
+            # itself carries (the one every process_request reads)
             seen["generic"] = (client_id, bool(request.get("authenticated")))
+            seen["req_client"] = request.get("client_id")
             return orig_vr(request=request, keyjar=keyjar, client_id=client_id, verify_args=verify_args, lap=lap)
 
         def do_post_parse_request(request, client_id="", **kw):
             if name == "userinfo":
                 seen["userinfo"] = (client_id, request.get("access_token"))
+                seen["req_client"] = request.get("client_id")
+            if name != "userinfo":
+                seen["post_req_client"] = request.get("client_id")
             return orig_pp(request=request, client_id=client_id, **kw)
 
         ep.client_authentication = client_authentication
         ep.verify_request = verify_request
         ep.do_post_parse_request = do_post_parse_request
+
+    def mint_access(self, cid):
+        """a fresh access token owned by cid (not one of the aliases the model knows)"""
+        sm = self.c.session_manager
+        sid, code = self.sess[cid]
+        return sm[sid].mint_token(session_id=sid, context=self.c, token_class="access_token",
+                                  token_handler=sm.token_handler["access_token"]).value
+
+    def token_revoked(self, value):
+        info = self.c.session_manager.get_session_info_by_token(value, grant=True, handler_key="access_token")
+        return bool(info["grant"].get_token(value).revoked)
 
     # -------- configuration
     def configure(self, cfg):
@@ -372,12 +398,16 @@ def state_fingerprint(world):
     return json.dumps(cdb, sort_keys=True, default=str), n_tok, len(c.par_db)
 
 
-def run_request(ctx, world, cfg, rq, now, hist):
-    """returns (coq_term, record); applies the oracle."""
+def run_request(ctx, world, cfg, rq, now, hist, extra_body=None, extra_rec=None):
+    """returns (coq_term, record); applies the oracle.  extra_body: parameters outside the modelled fragment
+    (they play no part in client authentication), e.g. the token a revocation request names."""
     c = world.c
     epn = cfg["ep"]
     ep = world.eps[epn]
     body, headers = real_request(world, epn, rq)
+    if extra_body:
+        body.update(extra_body)
+    world.last_parsed = None
     jdb_before = list(c.jti_db.keys())
     fp_before = state_fingerprint(world)
     world.seen.clear()
@@ -388,6 +418,10 @@ def run_request(ctx, world, cfg, rq, now, hist):
         else:
             res = ep.parse_request(dict(body), http_info={"headers": headers})
         outcome = ("ret", type(res).__name__, res.get("error") if hasattr(res, "get") else None)
+        world.last_parsed = res
+        if hasattr(res, "get") and not res.get("error"):
+            # what the caller of parse_request gets to hand to process_request
+            world.seen["final"] = (res.get("client_id"), bool(res.get("authenticated")))
     except Exception as e:
         outcome = ("exc", type(e).__name__)
     seen = dict(world.seen)
@@ -414,7 +448,8 @@ def run_request(ctx, world, cfg, rq, now, hist):
     if epn == "userinfo":
         if "userinfo" in seen:
             cid, tok = seen["userinfo"]
-            obs_parse = "(Ok (PUserinfo %s %s))" % (cq_optstr(cid), coq_str(world.alias_of.get(tok, tok)))
+            obs_parse = "(Ok (PUserinfo %s %s %s))" % (cq_optstr(cid), cq_optstr(seen.get("req_client")),
+                                                       coq_str(world.alias_of.get(tok, tok)))
         elif outcome[0] == "ret" and outcome[2] == "invalid_token":
             obs_parse = "(Ok PUserinfoError)"
         elif outcome[0] == "exc":
@@ -424,7 +459,7 @@ def run_request(ctx, world, cfg, rq, now, hist):
     else:
         if "generic" in seen:
             cid, flag = seen["generic"]
-            obs_parse = "(Ok (PGeneric %s %s))" % (cq_optstr(cid), coq_bool(flag))
+            obs_parse = "(Ok (PGeneric %s %s %s))" % (cq_optstr(cid), cq_optstr(seen.get("req_client")), coq_bool(flag))
         elif outcome[0] == "exc":
             obs_parse = "(Err %s)" % EXC.get(outcome[1], "(Refused 99)")
         else:
@@ -432,6 +467,8 @@ def run_request(ctx, world, cfg, rq, now, hist):
 
     rec = {"cfg": cfg, "variant": world.variant, "request": rq, "now": now, "jti_db_before": jdb_before, "auth": a, "seen": seen,
            "outcome": outcome, "jti_db_after": jdb_after}
+    if extra_rec:
+        rec.update(extra_rec)
 
     # ---- ORACLE (property text; independent of the model)
     oracle(ctx, world, cfg, rq, now, hist, rec, auth_ok, seen, outcome, fp_before, fp_after, jdb_before, jdb_after)
@@ -511,6 +548,70 @@ def jwt_valid_for(world, cfg, spec, cid, now, hist, need_aud=True):
     return True, ""
 
 
+def proved_identities(world, cfg, rq, now):
+    """Property text, from what the generator put into the request (never from what the code answered): the
+    clients X such that the request carries a credential only X could have produced - X's current secret in the
+    Basic header or the body, an assertion (request object) with iss = X made with X's secret / registered key,
+    addressed here, inside its validity, or a bearer token minted for X.  Method lists are not looked at (they are
+    judged separately); a replayed jti is judged under jti-replay; a request object's audience under
+    request_param-aud.  -> {X: kind of credential}"""
+    cdb = world.c.cdb
+    out = {}
+    h = rq.get("hdr")
+    if h and h[0] in ("basic", "basic_raw"):
+        txt = h[1] if h[0] == "basic" else (classify_basic_raw(h[1])[1] if classify_basic_raw(h[1])[0] == "text" else None)
+        if txt is not None and ":" in txt:
+            x, sec = txt.split(":", 1)
+            if x in cdb and cdb[x].get("client_secret") is not None and cdb[x]["client_secret"] == sec and secret_current(world, x, now):
+                out[x] = "basic"
+    x, sec = rq.get("client_id"), rq.get("client_secret")
+    if x is not None and sec is not None and x in cdb and cdb[x].get("client_secret") is not None \
+            and cdb[x]["client_secret"] == sec and secret_current(world, x, now):
+        out.setdefault(x, "post")
+    for field, need_aud in (("assertion", True), ("request", False)):
+        spec = rq.get(field)
+        if isinstance(spec, dict) and spec.get("iss") in cdb:
+            x = spec["iss"]
+            ok, _why = jwt_valid_for(world, cfg, spec, x, now, {"accepted_jti": set()}, need_aud=need_aud)
+            if ok and ("client_secret" not in cdb[x] or secret_current(world, x, now)):
+                out.setdefault(x, field)
+    if h and h[0] == "bearer" and world.token_owner.get(h[1]):
+        out.setdefault(world.token_owner[h[1]], "bearer_header")
+    if rq.get("access_token") is not None and world.token_owner.get(rq["access_token"]):
+        out.setdefault(world.token_owner[rq["access_token"]], "bearer_body")
+    return out
+
+
+def oracle_identity(ctx, world, cfg, rq, now, rec, seen, epn):
+    """(I) a request is processed under the identity its credential proves: wherever the parsed request is
+    handed on as authenticated, the client_id IT CARRIES (what the token helpers, revocation, introspection, PAR
+    and userinfo read) is a client the request holds a credential of - whatever client_id the body named."""
+    proved = proved_identities(world, cfg, rq, now)
+    places = []
+    if epn == "userinfo":
+        if "userinfo" in seen:
+            places.append(("the request UserInfo.parse_request hands to do_post_parse_request", seen.get("req_client"), True))
+    else:
+        if "generic" in seen:
+            places.append(("the request parse_request hands to verify_request", seen.get("req_client"), seen["generic"][1]))
+        if "post_req_client" in seen and "generic" in seen:
+            places.append(("the request parse_request hands to do_post_parse_request", seen["post_req_client"], seen["generic"][1]))
+        if "final" in seen:
+            places.append(("the request parse_request returns", seen["final"][0], seen["final"][1]))
+    for where, ident, flagged in places:
+        if flagged and ident not in proved:
+            ctx.violation("identity-not-proved",
+                          "%s: %s carries client_id=%r with authenticated=True, but the only credentials in the request "
+                          "are those of %r (body client_id %r, header %r): the request is processed as a client whose "
+                          "credential it does not hold" % (epn, where, ident, sorted(proved.items()), rq.get("client_id"),
+                                                           (rq.get("hdr") or (None,))[0]), rec)
+            return False
+    ctx.count("identity:" + ("processed-as-proved" if any(f for _, _, f in places) else "not-authenticated"))
+    if any(f for _, _, f in places) and rq.get("client_id") is not None and rq["client_id"] not in proved:
+        ctx.count("identity:body-names-another-client-processed-as-proved")
+    return True
+
+
 def oracle(ctx, world, cfg, rq, now, hist, rec, auth_ok, seen, outcome, fp_before, fp_after, jdb_before, jdb_after):
     epn = cfg["ep"]
     ep = world.eps[epn]
@@ -541,6 +642,7 @@ def oracle(ctx, world, cfg, rq, now, hist, rec, auth_ok, seen, outcome, fp_befor
         treated, authenticated = seen.get("generic", (None, False))
     if not authenticated:
         ctx.count("verdict:passed-unauthenticated")
+        oracle_identity(ctx, world, cfg, rq, now, rec, seen, epn)     # the returned request may still claim more
         return
     # (S) authenticated => a credential of that client, through an allowed method
     if meth in (None, "public", "none") or not cid:
@@ -550,6 +652,7 @@ def oracle(ctx, world, cfg, rq, now, hist, rec, auth_ok, seen, outcome, fp_befor
         return
     if treated != cid:
         ctx.violation("client-mixup", "%s: authenticated %r but request handed on for %r" % (epn, cid, treated), rec)
+    oracle_identity(ctx, world, cfg, rq, now, rec, seen, epn)
     ctx.count("verdict:authenticated")
     ctx.count("accepted-by:" + meth)
     ep_allowed = METHS if configured is None else (["none"] if configured == [] else configured)
@@ -762,6 +865,45 @@ def fault_matrix(world, cfg, now, tag):
     return F
 
 
+def identity_credentials(world, cfg, now, tag):
+    """one genuine credential per kind: (name, client it proves, request)"""
+    s = world.secret
+    J = lambda cid, alg, name: good_jwt(world, cfg, cid, alg, now, "i-%s-%s" % (name, tag))
+    return [
+        ("basic1", "client_1", lambda n: {"hdr": ("basic", "client_1:%s" % s["client_1"])}),
+        ("basic2", "client_2", lambda n: {"hdr": ("basic", "client_2:%s" % s["client_2"])}),
+        ("hs1", "client_1", lambda n: {"assertion": J("client_1", "HS256", "hs1" + n)}),
+        ("hs2", "client_2", lambda n: {"assertion": J("client_2", "HS256", "hs2" + n)}),
+        ("rs2", "client_2", lambda n: {"assertion": J("client_2", "RS256", "rs2" + n)}),
+        ("es4", "client_4", lambda n: {"assertion": J("client_4", "ES256", "es4" + n)}),
+        ("bearer-header1", "client_1", lambda n: {"hdr": ("bearer", "T1")}),
+        ("bearer-body2", "client_2", lambda n: {"access_token": "T2"}),
+        ("request-param2", "client_2", lambda n: {"request": J("client_2", "RS256", "rp2" + n)}),
+    ]
+
+
+def identity_matrix(world, cfg, now, tag):
+    """credential of one registered client x body client_id naming another client (registered confidential,
+    registered public, not registered) or the same one (control): the request must be processed as the client
+    the credential proves."""
+    s = world.secret
+    F = []
+    for name, cid, mk in identity_credentials(world, cfg, now, tag):
+        other = "client_2" if cid != "client_2" else "client_1"
+        for body in (other, "client_4" if cid != "client_4" else "client_1", "client_3", "nobody", cid):
+            rq = mk("-" + body)
+            rq["client_id"] = body
+            F.append(("ident:%s-body-%s" % (name, "same" if body == cid else body), rq))
+    # two complete, valid credentials of two different clients in one request (header and body)
+    F.append(("ident:basic1+post2", {"hdr": ("basic", "client_1:%s" % s["client_1"]), "client_id": "client_2", "client_secret": s["client_2"]}))
+    F.append(("ident:basic2+post1", {"hdr": ("basic", "client_2:%s" % s["client_2"]), "client_id": "client_1", "client_secret": s["client_1"]}))
+    F.append(("ident:hs1+post2", {"assertion": good_jwt(world, cfg, "client_1", "HS256", now, "i-hp-" + tag),
+                                  "client_id": "client_2", "client_secret": s["client_2"]}))
+    # a valid credential in the header, the body names another client with a WRONG secret / an assertion
+    F.append(("ident:bearer1+post2", {"hdr": ("bearer", "T1"), "client_id": "client_2", "client_secret": s["client_2"]}))
+    return F
+
+
 def merge(a, b):
     r = dict(a)
     for k, v in b.items():
@@ -866,15 +1008,16 @@ def run_history(ctx, world, cfg, mode, rng, clock, tag, cases):
     now = clock.now
     gen = genuine_requests(world, cfg, now, tag)
     mat = fault_matrix(world, cfg, now, tag)
+    idm = identity_matrix(world, cfg, now, tag)
     if mode == "matrix":
-        plan = gen + mat
+        plan = gen + mat + idm
     elif mode == "half":
-        plan = gen + rng.sample(mat, 40)
+        plan = gen + rng.sample(mat, 40) + rng.sample(idm, 20)
     elif mode == "genuine":
         plan = gen + [f for f in mat if f[0] in ("fault:exp-past", "fault:hs-other-clients-secret", "fault:basic-cross-secret",
-                                                  "fault:aud-wrong", "fault:smuggled-flag-client-id")]
+                                                  "fault:aud-wrong", "fault:smuggled-flag-client-id")] + rng.sample(idm, 4)
     else:
-        plan = rng.sample(gen, 8) + rng.sample(mat, 10)
+        plan = rng.sample(gen, 8) + rng.sample(mat, 10) + rng.sample(idm, 6)
     # random pairs of faults
     for i in range({"matrix": 6, "half": 3, "genuine": 1, "sampled": 4}[mode]):
         a, b = rng.sample(mat, 2)
@@ -947,6 +1090,8 @@ def run(ctx):
         side_cases(ctx, worlds["plain"])
         cases = []
         known_witness(ctx, worlds["plain"], clock, cases)
+        identity_processing(ctx, worlds["plain"], clock, cases)
+        identity_client_credentials(ctx, keys, clock)
         long_lived_replays(ctx, worlds["plain"], clock, cases)
         cfgs = configurations(ctx, rng, worlds)
         for i, (variant, cfg, mode) in enumerate(cfgs):
@@ -984,6 +1129,207 @@ def known_witness(ctx, world, clock, cases):
         recs.append({"i": len(recs), "name": name, "request": rq, "now": NOW0, "auth": rec["auth"], "outcome": rec["outcome"],
                      "handed_on": {k: v for k, v in rec["seen"].items() if k != "auth"}})
     cases.append((history_term(ctx, world, cfg, [], steps), {"cfg": cfg, "variant": world.variant, "tag": "witness", "steps": recs}))
+
+
+# ------------------------------------------------------------------ identity: what process_request does, for whom
+def run_processed(ctx, world, cfg, rq, now, hist, proc):
+    """parse_request (model + oracle as for every request) and then the real process_request on what it
+    returned; judged from the property text: an action on X's behalf (X's token revoked, a pushed request stored
+    for X) happens only if the request holds a credential of X."""
+    epn = cfg["ep"]
+    ep = world.eps[epn]
+    extra, tok = {}, None
+    if epn == "token_revocation":
+        tok = world.mint_access(proc["victim"])
+        extra = {"token": tok}
+    elif epn == "pushed_authorization":
+        extra = {"redirect_uri": "https://%s.example.com/cb" % proc["holder"]}
+    par_before = set(world.c.par_db.keys())
+    term, rec, unmod = run_request(ctx, world, cfg, rq, now, hist, extra_body=extra, extra_rec={"proc": proc})
+    parsed = world.last_parsed
+    done = None
+    if parsed is not None and hasattr(parsed, "get") and not parsed.get("error"):
+        try:
+            r = ep.process_request(parsed)
+            done = ("ret", r.get("error") if hasattr(r, "get") else None)
+        except Exception as e:
+            done = ("exc", type(e).__name__)
+    rec["processed"] = done
+    proved = proved_identities(world, cfg, rq, now)
+    if tok is not None:
+        revoked = world.token_revoked(tok)
+        rec["victim_token_revoked"] = revoked
+        ctx.count("processing:revocation:" + ("revoked" if revoked else "kept"))
+        if revoked and proc["victim"] not in proved:
+            ctx.violation("acted-for-unproved-identity:revocation",
+                          "token_revocation: an access token minted for %r was revoked by a request whose only credentials "
+                          "are those of %r (body client_id %r)" % (proc["victim"], sorted(proved.items()), rq.get("client_id")), rec)
+        if not revoked and proc["victim"] in proved and proc["victim"] == proc["holder"]:
+            ctx.count("processing:revocation:own-token-not-revoked")
+    if epn == "pushed_authorization":
+        for urn in sorted(set(world.c.par_db.keys()) - par_before):
+            owner = world.c.par_db[urn].get("client_id")
+            ctx.count("processing:par:stored")
+            if owner not in proved:
+                ctx.violation("acted-for-unproved-identity:par",
+                              "pushed_authorization: an authorization request was stored for client %r by a request whose "
+                              "only credentials are those of %r (body client_id %r)" % (owner, sorted(proved.items()), rq.get("client_id")), rec)
+            del world.c.par_db[urn]
+    return term, rec, unmod
+
+
+def identity_processing(ctx, world, clock, cases):
+    """Deterministic (no rng): at the revocation and the pushed authorization endpoint, every kind of genuine
+    credential of client A x body client_id in {absent, A, another registered client, the token's owner, an
+    unregistered id} (revocation: x the owner of the token to revoke), parse_request followed by process_request."""
+    for epn in ("token_revocation", "pushed_authorization"):
+        cfg = {"ep": epn, "methods": list(FULL), "issuer_target": False, "clients": {}}
+        world.configure(cfg)
+        clock.now = NOW0
+        hist = {"accepted_jti": set()}
+        steps, recs = [], []
+        jdb0 = list(world.c.jti_db.keys())
+        creds = [c for c in identity_credentials(world, cfg, NOW0, "P" + epn[:3]) if c[0] != "request-param2"]
+        if epn == "pushed_authorization":
+            creds = [c for c in creds if not c[0].startswith("bearer")]
+        n = 0
+        for name, holder, mk in creds:
+            for victim in (("client_1", "client_2") if epn == "token_revocation" else (None,)):
+                other = "client_2" if holder != "client_2" else "client_1"
+                bodies = [None, holder, other, "nobody"] + (["client_3"] if victim is None else [])
+                for body in bodies:
+                    n += 1
+                    rq = resolve_times(mk("-%d" % n), NOW0)
+                    if body is not None:
+                        rq["client_id"] = body
+                    pname = "process:%s:%s-body-%s%s" % (epn, name, body, "" if victim is None else "-token-of-" + victim)
+                    term, rec, unmod = run_processed(ctx, world, cfg, rq, NOW0, hist, {"victim": victim, "holder": holder})
+                    rec["name"] = pname
+                    ctx.case_seen({"name": pname, "ep": epn, "request": rq, "auth": rec["auth"], "processed": rec["processed"],
+                                   "victim_token_revoked": rec.get("victim_token_revoked")}, True)
+                    ctx.count("kind:process")
+                    if unmod:
+                        ctx.unmodelled += 1
+                        if steps:
+                            cases.append((history_term(ctx, world, cfg, jdb0, steps),
+                                          {"cfg": cfg, "variant": world.variant, "tag": "process-" + epn, "steps": recs}))
+                        steps, recs, jdb0 = [], [], list(world.c.jti_db.keys())
+                    else:
+                        steps.append(term)
+                        recs.append({"i": len(recs), "name": pname, "request": rq, "now": NOW0, "auth": rec["auth"],
+                                     "outcome": rec["outcome"], "processed": rec["processed"],
+                                     "handed_on": {k: v for k, v in rec["seen"].items() if k != "auth"}})
+        if steps:
+            cases.append((history_term(ctx, world, cfg, jdb0, steps),
+                          {"cfg": cfg, "variant": world.variant, "tag": "process-" + epn, "steps": recs}))
+    world.eps["pushed_authorization"].client_authn_method = list(world.default_methods["pushed_authorization"])
+    world.eps["token_revocation"].client_authn_method = list(world.default_methods["token_revocation"])
+
+
+class CCWorld:
+    """an OAuth2 authorization server (its token endpoint has the client_credentials grant) with two
+    confidential clients; just enough of World for sign_jwt / proved_identities."""
+    variant = "oauth2"
+
+    def __init__(self, keys):
+        import srv
+        self.keys = keys
+        self.server = srv.make_server(clients=("client_1", "client_2"), oidc=False)
+        self.c = self.server.context
+        self.server.keyjar.import_jwks({"keys": [pub_jwk(keys["rsa1"]), pub_jwk(keys["ec1"])]}, "client_2")
+        self.c.cdb["client_1"]["allowed_scopes"] = ["scope_of_client_1"]
+        self.c.cdb["client_2"]["allowed_scopes"] = ["scope_of_client_2"]
+        self.secret = {cid: self.c.cdb[cid]["client_secret"] for cid in ("client_1", "client_2")}
+        self.kj_iss = {"client_1": [("oct", self.secret["client_1"])],
+                       "client_2": [("oct", self.secret["client_2"]), ("rsa", 1), ("ec", 1)]}
+        self.kj_own = [("rsa", 0), ("ec", 0)]
+        self.tokens, self.token_owner = {}, {}
+        self.eps = {"token": self.server.get_endpoint("token")}
+
+
+def cc_requests(world, now):
+    s = world.secret
+    cfg = {"ep": "token"}
+    out = []
+    for holder in ("client_1", "client_2"):
+        other = "client_2" if holder == "client_1" else "client_1"
+        creds = [("basic", lambda n: {"hdr": ("basic", "%s:%s" % (holder, s[holder]))}),
+                 ("secret_jwt", lambda n: {"assertion": good_jwt(world, cfg, holder, "HS256", now, "cc-hs-%s-%s" % (holder, n))})]
+        if holder == "client_2":
+            creds.append(("private_key_jwt", lambda n: {"assertion": good_jwt(world, cfg, holder, "RS256", now, "cc-rs-" + n)}))
+        for cname, mk in creds:
+            for body in (None, holder, other, "nobody"):
+                rq = resolve_times(mk(str(body)), now)
+                if body is not None:
+                    rq["client_id"] = body
+                out.append(("cc:%s-of-%s-body-%s" % (cname, holder, body), holder, rq))
+        out.append(("cc:post-of-%s" % holder, holder, {"client_id": holder, "client_secret": s[holder]}))
+        out.append(("cc:basic-of-%s+post-of-%s" % (holder, other), holder,
+                    {"hdr": ("basic", "%s:%s" % (holder, s[holder])), "client_id": other, "client_secret": s[other]}))
+        out.append(("cc:basic-of-%s-body-%s-wrong-secret" % (holder, other), holder,
+                    {"hdr": ("basic", "%s:%s" % (holder, s[holder])), "client_id": other, "client_secret": "wrong"}))
+    return out
+
+
+def cc_one(ctx, world, name, rq, now):
+    """one client_credentials request through the real parse_request + process_request; oracle only (the
+    parse step of the same request shapes is compared with the model at the five modelled endpoints): the
+    token that is issued belongs to a client the request holds a credential of."""
+    ep = world.eps["token"]
+    cfg = {"ep": "token"}
+    body, headers = real_request(world, "token", rq)
+    body.pop("code", None)
+    body.pop("redirect_uri", None)
+    body["grant_type"] = "client_credentials"
+    rec = {"block": "client_credentials", "name": name, "request": rq, "now": now}
+    proved = proved_identities(world, cfg, rq, now)
+    # an empty session store per request: a SECOND client_credentials request of the same client makes
+    # ClientCredentials.process_request raise TypeError ('ClientSessionInfo' object is not subscriptable) - a
+    # robustness matter outside C01 that would make all but the first request of each client vacuous here
+    world.c.session_manager.flush()
+    try:
+        parsed = ep.parse_request(dict(body), http_info={"headers": headers})
+    except Exception as e:
+        rec["outcome"] = ("exc", type(e).__name__)
+        ctx.count("client_credentials:refused")
+        ctx.case_seen(rec, True)
+        return
+    rec["outcome"] = ("ret", type(parsed).__name__, parsed.get("error"))
+    rec["parsed_client_id"], rec["parsed_authenticated"] = parsed.get("client_id"), bool(parsed.get("authenticated"))
+    if not parsed.get("error") and parsed.get("authenticated") and parsed.get("client_id") not in proved:
+        ctx.violation("identity-not-proved",
+                      "token (client_credentials): the request parse_request returns carries client_id=%r with "
+                      "authenticated=True, but the only credentials in the request are those of %r (body client_id %r)"
+                      % (parsed.get("client_id"), sorted(proved.items()), rq.get("client_id")), rec)
+    if not parsed.get("error"):
+        try:
+            resp = ep.process_request(parsed)
+        except Exception as e:
+            resp = {"exception": type(e).__name__}
+        args = resp.get("response_args") if hasattr(resp, "get") else None
+        tok = (args or {}).get("access_token") or (resp.get("access_token") if hasattr(resp, "get") else None)
+        if tok:
+            info = world.c.session_manager.get_session_info_by_token(tok, handler_key="access_token")
+            rec["token_owner"], rec["token_scope"] = info["client_id"], (args or resp).get("scope")
+            ctx.count("client_credentials:token-issued")
+            if info["client_id"] not in proved:
+                ctx.violation("acted-for-unproved-identity:client_credentials",
+                              "token (client_credentials): an access token owned by %r (scope %r) was issued to a request "
+                              "whose only credentials are those of %r (body client_id %r)"
+                              % (info["client_id"], rec["token_scope"], sorted(proved.items()), rq.get("client_id")), rec)
+        else:
+            ctx.count("client_credentials:no-token")
+    else:
+        ctx.count("client_credentials:error-response")
+    ctx.case_seen(rec, True)
+    ctx.count("kind:client_credentials")
+
+
+def identity_client_credentials(ctx, keys, clock):
+    clock.now = NOW0
+    world = CCWorld(keys)
+    for name, _holder, rq in cc_requests(world, NOW0):
+        cc_one(ctx, world, name, rq, NOW0)
 
 
 LONG_METHODS = ["client_secret_post", "client_secret_jwt", "private_key_jwt", "request_param"]
@@ -1116,6 +1462,15 @@ def replay(ctx, rp):
     import logging
     import srv
     case = rp.get("case") or {}
+    if isinstance(case, dict) and case.get("block") == "client_credentials" and "request" in case:
+        logging.disable(logging.CRITICAL)
+        clock = srv.Clock(case["now"]).install()
+        try:
+            cc_one(ctx, CCWorld(load_keys(ctx)), case.get("name", "replay"), untuple(case["request"]), case["now"])
+        finally:
+            clock.uninstall()
+            logging.disable(logging.NOTSET)
+        return
     if not (isinstance(case, dict) and "cfg" in case and "request" in case):
         ctx.notes.append("replay re-runs the generator with the recorded seed")
         ctx.rng.seed(rp.get("seed", ctx.seed))
@@ -1132,7 +1487,10 @@ def replay(ctx, rp):
         rq = json.loads(json.dumps(case["request"]), object_hook=lambda d: d)
         rq = untuple(rq)
         jdb0 = list(world.c.jti_db.keys())
-        term, rec, unmod = run_request(ctx, world, cfg, rq, case["now"], hist)
+        if case.get("proc"):
+            term, rec, unmod = run_processed(ctx, world, cfg, rq, case["now"], hist, case["proc"])
+        else:
+            term, rec, unmod = run_request(ctx, world, cfg, rq, case["now"], hist)
         ctx.case_seen(rec, True)
         if not unmod:
             ctx.coq_check_cases(["Lib.Base", "Lib.PyStr", "Model.ClientAuthn"], "hcase", "chk_history",
